@@ -560,6 +560,28 @@ func buildFaultCases(r *core.Run, rng *rand.Rand, onlyBig bool) (cases []faultCa
 		}
 		addCase(fileInput{Name: fmt.Sprintf("random#%d", k), Kind: "other", Data: d}, -1, "EOF", "seeded random bytes", uint32(k))
 	}
+	// (d') ISOBMFF file-type headers over the brand alphabet of the sniffer: exactly 24 bytes, and with a body behind them
+	if !onlyBig {
+		brands := []string{"mif1", "msf1", "heic", "heix", "hevc", "avif", "miaf", "crx ", "isom"}
+		k := 0
+		for _, mj := range brands {
+			for _, c1 := range brands {
+				for _, c2 := range brands {
+					h := []byte("\x00\x00\x00\x18ftyp" + mj + "\x00\x00\x00\x00" + c1 + c2)
+					for _, tailN := range []int{0, 100} {
+						d := append(append([]byte{}, h...), make([]byte, tailN)...)
+						in := fileInput{Name: fmt.Sprintf("ftyp:%s/%s,%s+%d", mj, c1, c2, tailN), Kind: "other", Data: d}
+						for _, e := range []string{"imagetype.Buf", "imagetype.Scan", "imagetype.ReadAt", "imagetype.ScanBuf", "Decode"} {
+							if (k+tailN)%2 == 0 || e != "Decode" {
+								cases = append(cases, faultCase{in, e, -1, "EOF", "ftyp header over the sniffer's brand alphabet"})
+							}
+						}
+						k++
+					}
+				}
+			}
+		}
+	}
 	// (e) XMP packets with one long token (element value, attribute value, tag name) across the reader's look-ahead windows
 	for _, n := range []int{120, 300, 700, 1500, 1600, 6000} {
 		long := strings.Repeat("v", n)
